@@ -524,9 +524,9 @@ func unionMissOnly(a, b string) bool {
 		for j < len(s) && !(s[j] == '"' && s[j-1] != '\\') {
 			j++
 		}
-		es := strings.Split(s[i+len(tag):j], "};{")
+		es := strings.Split(strings.TrimSuffix(strings.TrimPrefix(s[i+len(tag):j], "{"), "}"), "};{")
 		sort.Strings(es)
-		return s[:i+len(tag)] + strings.Join(es, "};{") + s[j:]
+		return s[:i+len(tag)] + "{" + strings.Join(es, "};{") + "}" + s[j:]
 	}
 	return norm(a) == norm(b)
 }
